@@ -38,6 +38,9 @@ type OblResult struct {
 	raw      string
 	file     string
 	failPath int
+	modelVals []string
+	testSrc, testOut, pkgDir string
+	failAsserts []*Term
 }
 
 type FuncReport struct {
@@ -73,6 +76,8 @@ func main() {
 		os.Exit(cmdCheck(os.Args[2:]))
 	case "dump":
 		os.Exit(cmdDump(os.Args[2:]))
+	case "replay":
+		os.Exit(cmdReplay(os.Args[2:]))
 	default:
 		fmt.Fprintln(os.Stderr, "unknown command", os.Args[1])
 		os.Exit(2)
@@ -317,6 +322,7 @@ func (cr *checkRun) discharge(j *OblResult) {
 	type pq struct {
 		text  string
 		abs   string
+		small string
 		names []string
 	}
 	var qs []pq
@@ -332,6 +338,17 @@ func (cr *checkRun) discharge(j *OblResult) {
 			}
 		}
 		q := pq{text: ts.Query(asserts, vals, ""), names: names}
+		if len(disj) == 1 {
+			var bounds []*Term
+			for k, n := range names0 {
+				if strings.HasSuffix(n, ".len") {
+					bounds = append(bounds, ts.Le(vals0[k], ts.NumLit(bigInt(replayMaxElems), vals0[k].S), true))
+				}
+			}
+			if len(bounds) > 0 {
+				q.small = ts.Query(append(append([]*Term(nil), asserts...), bounds...), vals, "")
+			}
+		}
 		if a := ts.QueryOpt(asserts, nil, "", true); strings.Contains(a, "absmul!") {
 			q.abs = a
 		}
@@ -406,7 +423,23 @@ func (cr *checkRun) discharge(j *OblResult) {
 					j.Model[qs[i].names[k]] = v
 				}
 			}
+			j.modelVals = r.Values
 			j.failPath = i
+			// prefer a small counterexample (short slices) for replay
+			if small := qs[i].small; small != "" {
+				f := writeQuery(o.WorkDir, fmt.Sprintf("%s-p%d-small", j.Name, i), small)
+				ctx, cancel := context.WithCancel(context.Background())
+				r2 := runOne(ctx, solvers[0], f, 5, o.Seed)
+				cancel()
+				if r2.Status == "sat" && len(r2.Values) > 0 {
+					j.modelVals = r2.Values
+					for k, v := range r2.Values {
+						if k < len(qs[i].names) {
+							j.Model[qs[i].names[k]] = v
+						}
+					}
+				}
+			}
 		default:
 			if j.Status != "failed" || j.Answer != "sat" {
 				j.Status = "failed"
@@ -458,7 +491,7 @@ func (cr *checkRun) report(start time.Time, loadS float64, reports []*FuncReport
 	isKnown := func(name string) *KnownFinding {
 		for i := range known {
 			k := &known[i]
-			if k.Property == o.Property && k.Obligation == name && k.Status != "fixed" {
+			if k.Property == o.Property && k.Obligation == name && k.Status == "open" {
 				return k
 			}
 		}
@@ -654,20 +687,9 @@ func (cr *checkRun) writeReplay(j *OblResult) string {
 	safe := strings.NewReplacer("/", "_", "*", "p", "(", "", ")", "", "#", "-", "$", "S", " ", "").Replace(j.Name)
 	p := filepath.Join(o.ReplayDir, o.Property, safe+".json")
 	cr.tryReplay(j)
-	doc := map[string]interface{}{
-		"property":   o.Property,
-		"obligation": j.Name,
-		"kind":       j.Kind,
-		"text":       j.Text,
-		"pos":        j.Pos,
-		"solver":     j.Solver,
-		"answer":     j.Answer,
-		"reason":     j.Reason,
-		"model":      j.Model,
-		"replay":     j.Replay,
-		"replayed":   j.replayed(),
-		"solver_output": truncate(j.raw, 4000),
-	}
+	doc := ReplayDoc{Property: o.Property, Obligation: j.Name, Kind: j.Kind, Text: j.Text, Pos: j.Pos, Solver: j.Solver, Answer: j.Answer,
+		Reason: j.Reason, Model: j.Model, Replay: j.Replay, Replayed: j.replayed(), PkgDir: j.pkgDir, TestSource: j.testSrc, TestOutput: j.testOut,
+		SolverOut: truncate(j.raw, 4000), Repo: o.Repo}
 	data, _ := json.MarshalIndent(doc, "", " ")
 	os.WriteFile(p, data, 0o644)
 	return p
